@@ -211,7 +211,7 @@ func (m *Msg) TypePath(p Path) string {
 }
 
 // Kinds of single mutations.
-var Kinds = []string{"drop", "dup", "empty", "retype-unknown", "retype-cause", "truncate1", "truncate-half", "v6only", "inner-length", "move-last", "zero-fill"}
+var Kinds = []string{"drop", "drop-all-of-type", "dup", "empty", "retype-unknown", "retype-cause", "truncate1", "truncate-half", "v6only", "inner-length", "move-last", "zero-fill"}
 
 func v6Payload(t uint16, old []byte) []byte {
 	v6 := []byte{0x20, 0x01, 0x0d, 0xb8, 0, 0, 0, 0, 0, 0, 0, 0, 0, 0, 0, 1}
@@ -262,6 +262,30 @@ func (m *Msg) Apply(p Path, kind string) (*Msg, bool) {
 	switch kind {
 	case "drop":
 		*lst = append((*lst)[:i:i], (*lst)[i+1:]...)
+	case "drop-all-of-type":
+		// every sibling of the same type goes (e.g. an establishment without any Create PDR); only offered at the first one
+		cnt := 0
+		for k, x := range *lst {
+			if x.Type == n.Type {
+				cnt++
+				if k < i {
+					return nil, false
+				}
+			}
+		}
+
+		if cnt < 2 {
+			return nil, false
+		}
+
+		var keep []*Node
+		for _, x := range *lst {
+			if x.Type != n.Type {
+				keep = append(keep, x)
+			}
+		}
+
+		*lst = keep
 	case "dup":
 		d := cloneNodes([]*Node{n})[0]
 		*lst = append((*lst)[:i+1:i+1], append([]*Node{d}, (*lst)[i+1:]...)...)
